@@ -304,9 +304,9 @@ fn goldens(rep: &mut Report) {
             }
         }
     } else if !dir.is_dir() {
-        rep.inconclusive.push(format!("goldens directory {} missing: run once with VERIF_WRITE_GOLDENS=1 on the pinned tree", dir.display()));
-        eprintln!("C12: no goldens at {}; section skipped (inconclusive)", dir.display());
-        return;
+        // without the frozen encodings wire stability cannot be judged at all: inconclusive (exit 2)
+        eprintln!("C12: no goldens at {}; generate them once on the pinned tree with VERIF_WRITE_GOLDENS=1 (inconclusive)", dir.display());
+        std::process::exit(2);
     }
     let mut names = BTreeSet::new();
     for ((name, item), (_, item2)) in cat.iter().zip(cat2.iter()) {
